@@ -1,14 +1,23 @@
-(* Model/CloneMw.v - which middleware a client carries (C18): Client.OnAfterResponse /
-   OnBeforeRequest append to the client's own list, Client.Clone gives the new client a COPY of the
-   lists (client.go Clone: cloneSlice).  Clients are numbered in creation order, 0 = C(). *)
+(* Model/CloneMw.v - what a client carries (C18): Client.OnAfterResponse / OnBeforeRequest /
+   WrapRoundTripFunc append to the client's own lists, SetCommonErrorResult sets its own error type,
+   Client.Clone gives the new client a COPY of all of it - and a wrapped round-trip chain of its
+   own that ends in the CLONE's roundTrip (client.go Clone).  Clients are numbered in creation
+   order, 0 = C(). *)
 From ReqV Require Export Lib.Bytes.
 
+Inductive ckind := KResp | KReq | KWrap.   (* OnAfterResponse | OnBeforeRequest | WrapRoundTripFunc *)
+
 Inductive cop :=
-| CReg (c : nat) (resp : bool) (m : nat)   (* client c: OnAfterResponse (resp = true) / OnBeforeRequest of user middleware m *)
+| CReg (c : nat) (k : ckind) (m : nat)     (* client c registers user function m of kind k *)
+| CErrType (c : nat) (t : nat)             (* client c: SetCommonErrorResult(value of type t) *)
 | CClone (src : nat).                      (* a new client = clients[src].Clone() *)
 
-(* per client: (response middleware ids, request middleware ids), registration order *)
-Definition store := list (list nat * list nat).
+(* what one client carries: response middleware, request middleware, round-trip wrappers
+   (registration order), common error type (0 = none) *)
+Record cl := mkCl { cl_resp : list nat; cl_req : list nat; cl_wraps : list nat; cl_et : nat }.
+Definition cl0 : cl := mkCl [] [] [] 0.
+
+Definition store := list cl.
 
 Fixpoint update {A} (n : nat) (f : A -> A) (l : list A) : list A :=
   match l, n with
@@ -17,11 +26,24 @@ Fixpoint update {A} (n : nat) (f : A -> A) (l : list A) : list A :=
   | x :: r, S n' => x :: update n' f r
   end.
 
-Definition step (s : store) (o : cop) : store :=
-  match o with
-  | CReg c true m => update c (fun p => (fst p ++ [m], snd p)) s
-  | CReg c false m => update c (fun p => (fst p, snd p ++ [m])) s
-  | CClone src => s ++ [nth src s ([], [])]
+Definition reg (k : ckind) (m : nat) (x : cl) : cl :=
+  match k with
+  | KResp => mkCl (cl_resp x ++ [m]) (cl_req x) (cl_wraps x) (cl_et x)
+  | KReq => mkCl (cl_resp x) (cl_req x ++ [m]) (cl_wraps x) (cl_et x)
+  | KWrap => mkCl (cl_resp x) (cl_req x) (cl_wraps x ++ [m]) (cl_et x)
   end.
 
-Definition run_ops (ops : list cop) : store := fold_left step ops [([], [])].
+Definition step (s : store) (o : cop) : store :=
+  match o with
+  | CReg c k m => update c (reg k m) s
+  | CErrType c t => update c (fun x => mkCl (cl_resp x) (cl_req x) (cl_wraps x) t) s
+  | CClone src => s ++ [nth src s cl0]
+  end.
+
+Definition run_ops (ops : list cop) : store := fold_left step ops [cl0].
+
+(* what a request fired from a client runs / binds: its own response middleware in order, its own
+   request middleware in order, its own wrappers from the last registered (outermost) inwards, and
+   an error-state body is bound to its own common error type *)
+Definition observed (x : cl) : list nat * list nat * list nat * nat :=
+  (cl_resp x, cl_req x, rev (cl_wraps x), cl_et x).
